@@ -1,4 +1,5 @@
 from runner import Prop, Stream
+from qe_common import valid_qe, shrink_request
 
 
 def valid(inp):
@@ -16,12 +17,38 @@ def valid(inp):
         return False
 
 
+def classify_cluster(inp):
+    """a request that needs a backend held by another node takes the distributed code path"""
+    try:
+        mine = set(inp["cluster"][0] or [])
+        listed = None
+        for line in inp["lines"][1:]:
+            head, _, arg = line.partition(":")
+            if head.strip().lower() == "backends":
+                listed = arg.split()
+        if listed is None or len(listed) == 0:
+            return "distributed_query" if len(inp["cluster"]) > 1 else None
+        if any(b not in mine for b in listed):
+            return "distributed_query"
+        return None
+    except (KeyError, TypeError, IndexError):
+        return None
+
+
+def valid_cluster(inp):
+    return valid_qe(inp) and isinstance(inp.get("cluster"), list) and len(inp["cluster"]) >= 2
+
+
 PROP = Prop(
     pid="C18",
     coq_props="theories/C18/Props.v",
-    coq_run=["theories/C18/Run.v"],
+    coq_run=["theories/C18/Run.v", "theories/QE/Run.v"],
     streams=[Stream("assign", "c18assign", n_quick=150, n_thorough=3000, valid=valid,
-                    what="Nodes.redistribute/updateBackends/IsOurBackend on real Nodes and Peer objects")],
+                    what="Nodes.redistribute/updateBackends/IsOurBackend on real Nodes and Peer objects"),
+             Stream("cluster", "qe", n_quick=200, n_thorough=2000, shards_thorough=4, valid=valid_cluster,
+                    shrinker=shrink_request, classify=classify_cluster, extra_args=["--profile", "c18"],
+                    what="2-3 in-process lmd nodes connected through their real HTTP /query endpoint, request sent to node 0; "
+                         "expected = the query-engine model's answer for a single lmd holding all backends")],
     trusted_base=[
         "Coq 8.16.1 kernel, vm_compute (cases evaluation and the non-vacuity Example); no native_compute",
         "axioms: none (Print Assumptions: closed under the global context, captured per run)",
@@ -32,5 +59,5 @@ PROP = Prop(
         "all nodes see the same membership set (each computes the same pure function of it)",
         "configured backend ids are non-empty and distinct (hypotheses of the theorems)",
     ],
-    gen=False,
+    gen=True,
 )
